@@ -158,14 +158,19 @@ def step_diff(p, y, rep=None):
         out.extend(obs_diff(p.get('side_effects') or {}, y.get('side_effects') or {}, 'side_effects'))
     if p.get('alias_err') != y.get('alias_err'):
         out.append('alias_err')
+    # buffers owned by the caller (ndarray arguments): changed by tenpy / sharing memory with a live tensor
+    for k in ('ext_changed', 'ext_shares'):
+        if p.get(k) != y.get(k):
+            out.append(k)
     return out
 
 
-ALIAS_KEYS = ('shares', 'changed', 'side_effects', 'alias_err')
+ALIAS_KEYS = ('shares', 'changed', 'side_effects', 'alias_err', 'ext_changed', 'ext_shares')
 
 
 def alias_only(diffs):
-    return bool(diffs) and all(d in ('shares', 'changed', 'alias_err') or d.startswith('side_effects') for d in diffs)
+    return bool(diffs) and all(d in ('shares', 'changed', 'alias_err', 'ext_changed', 'ext_shares') or d.startswith('side_effects')
+                               for d in diffs)
 
 
 def alias_detail(p, y):
@@ -175,6 +180,9 @@ def alias_detail(p, y):
     if sp != sy:
         out.append('pairs of live tensors (register numbers) sharing block memory: only in pure Python %s, only compiled %s' % (
             sorted(set(sp) - set(sy)), sorted(set(sy) - set(sp))))
+    if p.get('ext_changed') != y.get('ext_changed') or p.get('ext_shares') != y.get('ext_shares'):
+        out.append('caller-owned ndarray arguments changed / shared with live tensors: pure Python %s/%s, compiled %s/%s' % (
+            p.get('ext_changed'), p.get('ext_shares'), y.get('ext_changed'), y.get('ext_shares')))
     if p.get('changed') != y.get('changed'):
         out.append('live tensors whose value changed during the step: pure Python %s, compiled %s' % (p.get('changed'), y.get('changed')))
     elif p.get('side_effects') != y.get('side_effects'):
@@ -297,7 +305,24 @@ def run_mixed(ctx, items, nchunks=None):
     return out, infos
 
 
-def compare_programs(ctx, stream, cases, out):
+KERNEL_OPS = ('iscale', 'iscale_prefactor', 'idiv', 'iadd', 'isub', 'iadd_prefactor_other', 'itranspose', 'iconj', 'tensordot',
+              'w_tensordot', 'inner', 'w_inner', 'combine', 'w_combine', 'add', 'sub', 'scale', 'rscale', 'div')
+
+
+def view_steps(c, y):
+    """steps of a program whose receiver/operand had non-contiguous blocks IN THE COMPILED configuration when an in-place or
+    BLAS-backed kernel executed on it: [(op, role, gaps?)]"""
+    out = []
+    for st, r in zip(c['steps'], y.get('steps', [])):
+        if st['op'] in KERNEL_OPS and 'error' not in r and 'skipped' not in r:
+            for role in ('a', 'b'):
+                lay = (r.get('pre', {}).get(role) or {}).get('layout')
+                if lay and lay[0] > 0:
+                    out.append((st['op'], role, lay[1] > 0))
+    return out
+
+
+def compare_programs(ctx, stream, cases, out, nontrivial=None):
     nd = 0
     opstat = ctx.cov.setdefault('input_distribution', {}).setdefault(stream, {})
     for ci, (c, p, y) in enumerate(zip(cases, out['py'], out['cy'])):
@@ -340,6 +365,17 @@ def compare_programs(ctx, stream, cases, out):
                          match_key='C04:final-state:' + ','.join(sorted(set(x.split('/')[-1] for x in fd)))[:60])
                 nd += 1
         nontriv = any(s['op'] != 'new' and 'error' not in r and 'skipped' not in r for s, r in zip(c['steps'], p['steps']))
+        if nontrivial is not None:
+            nontriv = nontrivial(c, p, y)
+        for cfg, o in (('pure-Python', p), ('compiled', y)):
+            bad = [(si, r['ext_changed']) for si, r in enumerate(o['steps']) if r.get('ext_changed')]
+            if bad:
+                si = bad[0][0]
+                ctx.fail('oracle', 'step %d (%s): the %s configuration modified an ndarray owned by the caller (argument of '
+                         'Array.from_ndarray, which documents a copy)' % (si, c['steps'][si]['op'], cfg),
+                         {'stream': stream, 'case': {'mods': c['mods'], 'pool': c['pool'], 'steps': c['steps'][:si + 1]}, 'step': si},
+                         match_key='C04:%s:caller-buffer-modified' % c['steps'][si]['op'])
+                nd += 1
         ctx.count(stream, c, nontrivial=nontriv,
                   sample={'ops': [s['op'] for s in c['steps']], 'mods': c['mods'], 'pool': c['pool']})
         if first is not None:
@@ -348,7 +384,12 @@ def compare_programs(ctx, stream, cases, out):
             key = classify(st, a, b, d)
             if os.environ.get('C04_DEBUG') and os.environ['C04_DEBUG'] in key:
                 print('DEBUG', stream, key, d, json.dumps(c['steps'][:si + 1])[-700:], json.dumps(a.get('pre')), '\nPY', json.dumps(a.get('recv') or a.get('res') or a.get('error'))[:300], '\nCY', json.dumps(b.get('recv') or b.get('res') or b.get('error'))[:300])
-            ctx.fail('oracle', 'step %d (%s) differs between the configurations in %s; %s [%s]' % (si, st['op'], d[:6], blame(a, b), key),
+            lay = {k: v.get('layout') for k, v in (b.get('pre') or {}).items() if v.get('layout') and v['layout'][0]}
+            how = ''
+            if lay:
+                how = '; operand blocks not C-contiguous before the step (compiled run): %s' % ', '.join(
+                    '%s: %d block(s), %d with gaps' % (k, v[0], v[1]) for k, v in sorted(lay.items()))
+            ctx.fail('oracle', 'step %d (%s) differs between the configurations in %s; %s%s [%s]' % (si, st['op'], d[:6], blame(a, b), how, key),
                      {'stream': stream, 'case': {'mods': c['mods'], 'pool': c['pool'], 'steps': c['steps'][:si + 1]},
                       'step': si, 'py': a, 'cy': b, 'how': 'harness/impl/c04_impl.py kind=programs in both configurations'},
                      match_key=key)
@@ -700,7 +741,11 @@ def main(ctx):
     bfree = [c04_gen.gen_blockfree_inplace(rng) for _ in range(ctx.pick(120, 1000) * mult)]
     # stream 3d: public indexing (scalars are the only rank-0 results; the Array class has no rank 0)
     index = [c04_gen.gen_indexing(rng) for _ in range(ctx.pick(100, 800) * mult)]
-    items = ([('algos', c) for c in algos] + [('programs', c) for c in cases + f5 + zs + chains + bfree + index]
+    # stream 3e: non-contiguous views (take_slice / a[:, i, :] / transposes / blocks handed over in Fortran order or as sub-views of a
+    # larger buffer) as receivers and operands of every in-place and BLAS-backed kernel; the sliced source stays alive
+    views = [c['case'] for c in common.corpus_cases('C04') if c.get('stream') == 'strided-views']
+    views += [c04_gen.gen_strided_views(rng) for _ in range(ctx.pick(160, 1200) * mult)]
+    items = ([('algos', c) for c in algos] + [('programs', c) for c in cases + f5 + zs + chains + bfree + index + views]
              + [('kernels', c) for c in kcases])
     allout, infos = run_mixed(ctx, items, nchunks=ctx.pick(6, 12))
     mark('both-configurations')
@@ -724,6 +769,16 @@ def main(ctx):
     o += len(bfree)
     ndiff += compare_programs(ctx, 'indexing', index, part(o, len(index)))
     o += len(index)
+    vstat = ctx.cov.setdefault('strided_view_kernel_calls', {})
+
+    def views_nontrivial(c, p, y):
+        vs = view_steps(c, y)
+        for op, role, gaps in vs:
+            k = '%s:%s:%s' % (op, 'receiver' if role == 'a' else 'operand', 'gaps' if gaps else 'permuted')
+            vstat[k] = vstat.get(k, 0) + 1
+        return bool(vs)
+    ndiff += compare_programs(ctx, 'strided-views', views, part(o, len(views)), nontrivial=views_nontrivial)
+    o += len(views)
     outk = part(o, len(kcases))
     # if something unexplained differs, intensify: as many programs again
     if ctx.violations and not ctx.thorough():
@@ -872,7 +927,8 @@ def main(ctx):
         'int64 explicitly and the theorems assume |q| < 2^62 resp. products < 2^63',
         'C04 not modelled in Coq: the BLAS arithmetic of iadd_prefactor_other (its block merge and itranspose ARE modelled and executed '
         'against both configurations: Model/KernelsPyCy3Check.v), the combine/split/tensordot/inner workers (compared differentially on '
-        'identical programs only); memory layout (contiguity) is not part of the differential observation',
+        'identical programs only); the memory layout (contiguity) of result blocks is not itself diffed, but stream strided-views feeds '
+        'non-contiguous blocks (sliced sub-views with gaps, permuted buffers, Fortran order) into every in-place / BLAS-backed kernel',
         'C04: effects of in-place writes through shallow copies are excluded from the differential (documented as unspecified by Array.copy; '
         'they are the subject of C03); likewise the memory-sharing relation is diffed only for pairs of tensors that are NOT related by '
         'a documented shallow copy (copy(deep=False), sort_legcharge, unary_blockwise)',
@@ -925,5 +981,11 @@ RULE = ('programs: random programs of 4-8 steps over tensors of rank 1-4 with 0-
         'then in-place scalings and additions on results and operands.  blockfree-dtype: a tensor without stored blocks (each of the 5 '
         'dtypes) and 1-2 partners with equal legs as receivers/operands of *=, /=, iscale_prefactor, *, /, +, -, +=, -=, '
         'iadd_prefactor_other with python and numpy-typed prefactors, (i)unary_blockwise, astype, negation, complex_conj, norm.  indexing: '
-        'a[...] with int/slice/mask/index array/Ellipsis per axis, a[i, j, ..] = v, take_slice, squeeze (scalar results included).  kernels: '
+        'a[...] with int/slice/mask/index array/Ellipsis per axis, a[i, j, ..] = v, take_slice, squeeze (scalar results included).  '
+        'strided-views: a tensor of rank 2-4 with blocks of size 1-4 per leg (handed over C-contiguous, in Fortran order or as sub-views of a '
+        'larger buffer), views of it by take_slice / a[:, i, :] on mostly middle and last axes (also views of views, transposes, masks, '
+        'iproject, squeeze, from_ndarray of a strided ndarray), then *=, /=, iscale_prefactor, +=, -=, iadd_prefactor_other, itranspose, '
+        'iconj, tensordot, inner (also the workers directly), combine_legs with the fresh view as receiver AND as operand, partners with '
+        'equal legs/qtotal (another slice of the same charge block, a new tensor, a copy); non-trivial when the compiled run executed at '
+        'least one such kernel on a tensor with non-C-contiguous blocks.  kernels: '
         'generated arguments of the helper functions (non-trivial always).  Each case is executed in BOTH configurations.')
